@@ -78,7 +78,7 @@ def _call(f, *a):
         return f"EXC {type(e).__name__}: {e}"
 
 
-def _check_norm(rules, V, W, exact, inp0, maxlen, fails):
+def _check_norm(rules, V, W, exact, inp0, maxlen, fails, order=None):
     evals = 0
     wrules = [(w, h, b) for w, (h, b) in zip(W, rules)]
     tol = 0 if exact else 1e-16
@@ -93,7 +93,7 @@ def _check_norm(rules, V, W, exact, inp0, maxlen, fails):
     def close(a, b):
         return a == b if exact else gram.fclose(a, b)
 
-    g = gram.build(rules, Float, W, V=V)
+    g = gram.build(rules, Float, W, V=V, order=order)
     new = _call(locally_normalize, g)
     evals += 1
     if isinstance(new, str):
@@ -145,6 +145,11 @@ def run_norm(case):
     evals += e
     nontriv |= nt
     skipped += sk
+    if n >= 2:
+        # configurations: the same grammar with its rules added in reverse order and rotated by one
+        for oname, order in (("reversed", list(range(n))[::-1]), ("rotated", list(range(1, n)) + [0])):
+            e, nt, sk = _check_norm(rules, V, [FLOATW[i % 6] for i in range(n)], False, {"rules": case["rules"], "weights": "float", "rule_order": oname}, maxlen, fails, order=order)
+            evals += e
     var_of = gram.shared_vars(rules)
     if var_of is not None:
         # duplicate rules with EQUAL weights (rule objects equal by value)
